@@ -128,11 +128,21 @@ func runDump(repo, verif, id, fn string) int {
 		fmt.Fprintln(os.Stderr, "load:", err)
 		return 2
 	}
-	rep, obls := e.VerifyFunc(id, modPath+"/"+fn)
+	var rep *FuncReport
+	var obls []*Obligation
+	if strings.HasPrefix(fn, "lemma:") {
+		rep, obls = e.VerifyLemmas(id, []string{strings.TrimPrefix(fn, "lemma:")})
+	} else {
+		rep, obls = e.VerifyFunc(id, modPath+"/"+fn)
+	}
 	b, _ := json.MarshalIndent(rep, "", " ")
 	fmt.Println(string(b))
 	for _, o := range obls {
-		fmt.Printf("==== %s [%s] %s\n%s\n", o.Name, o.Kind, o.Clause, o.Script)
+		sc := o.Script
+		if os.Getenv("GOVC_DUMP_LITE") != "" && o.Lite != "" {
+			sc = o.Lite
+		}
+		fmt.Printf("==== %s [%s] %s\n%s\n", o.Name, o.Kind, o.Clause, sc)
 	}
 	return 0
 }
